@@ -263,14 +263,21 @@ TIE = {
          "tools/pytrans.py): C04_tie_code_is_model - in exact arithmetic the translated code returns exactly the model's force_single for "
          "every grid, value and fuel >= 1 (the repair loops never iterate); C04_tie_value_covered_whatever_the_rounding - for ANY float "
          "arithmetic obeying four order laws (true of IEEE-754), whenever the code returns for a finite value, the value lies inside the "
-         "edges as the code computes them (loop invariants through both while loops)."),
+         "edges as the code computes them (loop invariants through both while loops); C04_tie_array_branch_is_model - the array branch "
+         "of _force_bin_existence (minimum, then maximum) is the model's force_array."),
+ "C05": ("Tie by translation (coq/Props/C05_tie.v against coq/Gen/PyFW.v = the current source of FixedWidthBinning._adapt / "
+         "_force_new_min_max / _set_min_and_count): for every pair of fixed-width binnings the translated _adapt raises exactly when the "
+         "model refuses (different width or shift), otherwise self becomes the model's union axis and the two returned bin maps are the "
+         "model's left shifts (C05_tie_adapt_is_model); model_adapt_fixed is literally the fixed/fixed branch of adapt_axis "
+         "(C05_tie_model_branch)."),
  "C06": ("Tie by translation (coq/Props/C06_tie.v against coq/Gen/PyStats.v = the current source of Statistics.__mul__ / mean): the "
          "translated __mul__ is the model's stats_mul; the translated mean is invariant under any non-zero factor."),
  "C10": ("Tie by translation (coq/Props/C10_tie.v against coq/Gen/PyMerge.v = the two bin-map builders inside the current source of "
          "HistogramBase.merge_bins): the translated list comprehension and min_frequency loop are the model's amount_map and mf_map for "
          "every bin count, amount, list of frequencies and threshold."),
  "C14": ("Tie by translation (coq/Props/C14_tie.v against coq/Gen/PyStats.v = the current source of physt/statistics.py): the "
-         "translated Statistics.__add__, INVALID_STATISTICS, mean and variance are the model's stats_add, invalid_stats, st_mean, st_var."),
+         "translated Statistics.__add__, INVALID_STATISTICS, mean and variance are the model's stats_add, invalid_stats, st_mean, st_var; the "
+         "statistics update inside Histogram1D.fill (histogram1d.py) is the model's fill_stats (C14_tie_fill)."),
 }
 TIE_TECHNIQUE = " + tie by translation: Python->Gallina translator re-run on the current source, equivalence to the model proved for all inputs"
 TIE_NOTE = (" The translator tools/pytrans.py (fail-closed Python-ast -> Gallina, subset and typing rules in DESIGN.md 0.9) and its kernel "
